@@ -56,6 +56,7 @@ func main() {
 		first := fs.Int("first", 0, "index of the first session")
 		rabbit := fs.Int("rabbit", -1, "force dialect: 1 rabbit, 0 0-9-1, -1 random")
 		engine := fs.String("engine", "", "force engine: buntdb | badger | empty = random")
+		fs.StringVar(&focus, "focus", "", "bias the op mix: flow | confirm | empty = general")
 		fs.Parse(os.Args[2:])
 		for i := 0; i < *n; i++ {
 			if err := genSession(*seed, *first+i, *steps, *kind, *work, time.Duration(*settle)*time.Millisecond, *rabbit, *engine); err != nil {
